@@ -125,7 +125,7 @@ func c01wsCheck(c *C01WSCase) (ds []ev.Discrepancy, classes []string) {
 	if err != nil {
 		return []ev.Discrepancy{ev.D("c01.harness", "%v", err)}, nil
 	}
-	version := 1
+	versions := [3]int{} // per document, from 1 with every didOpen
 	for si, op := range c.Ops {
 		d := op.Doc
 		hold := op.Pending && op.Probe != ""
@@ -144,6 +144,7 @@ func c01wsCheck(c *C01WSCase) (ds []ev.Discrepancy, classes []string) {
 				cls["open-with-text-other-than-disk"] = true
 			}
 			_ = h.Open(uris[d], st.text[d])
+			versions[d] = 1
 		case "change":
 			if !st.open[d] {
 				gate.release()
@@ -157,8 +158,8 @@ func c01wsCheck(c *C01WSCase) (ds []ev.Discrepancy, classes []string) {
 					cls["file-joins-or-leaves-with-unsaved-edits"] = true
 				}
 			}
-			version++
-			_ = h.Change(uris[d], version, []refclient.Change{{Text: st.text[d]}})
+			versions[d]++
+			_ = h.Change(uris[d], versions[d], []refclient.Change{{Text: st.text[d]}})
 		case "close":
 			if !st.open[d] {
 				gate.release()
